@@ -224,7 +224,11 @@ def bg_correct(raw, bg, df=None):
     if not (raw.shape == bg.shape == df.shape and list(get_spacing(raw)) == list(get_spacing(bg)) == list(get_spacing(df))):
         raise BadImage("raw and background images must have the same shape and spacing")
 
-    holo = (raw - df) / zero_filter(bg - df)
+    # integer images (camera counts, often unsigned) are subtracted as floats:
+    # unsigned counts wrap around where a pixel lies below the dark field
+    raw_f, bg_f, df_f = (im.astype(float) if im.dtype.kind in 'iub' else im
+                         for im in (raw, bg, df))
+    holo = (raw_f - df_f) / zero_filter(bg_f - df_f)
     holo = copy_metadata(raw, holo)
 
     if hasattr(holo, 'noise_sd') and hasattr(bg, 'noise_sd') and holo.noise_sd is None:
